@@ -395,7 +395,7 @@ campaign_values.shards = (4, 16)
 
 @st.composite
 def bytes_cases(draw):
-    spec, params, value = draw(V.cases(frag=V.CORE, depth=3))
+    spec, params, value = draw(V.cases(frag=V.CORE, depth=3, ntflags=True))
     try:
         canonical = R.ref_build(spec, value, params)
     except (R.Reject, R.ForeignError):
